@@ -625,5 +625,5 @@ def obligations(tier):
     out.append(Obligation('link-arg-sources', ob_link_arg_sources(), dict(real='Compiler.get_build_link_args, Build.get_project_link_args / get_global_link_args', lists='0-2 symbolic 1-char strings each', targets='2-3 in sequence'), labels=('done',)))
     out.append(Obligation('test-argv', ob_test_argv(), dict(real='mtest.SingleTestRunner.__init__/run/_run_cmd/_run_subprocess, TestHarness.get_wrapper; asyncio.create_subprocess_exec recorded', args='1-2 of 1-2 chars over {a, space, $, quote, backslash}', test_args='0-1', wrapper='none | --wrapper with a symbolic argument | --gdb', protocol='exitcode | tap'), labels=('started',), max_paths=3000000))
     out.append(Obligation('project-commands', ob_project_commands('inputs'), dict(real='Interpreter.run + NinjaBackend.generate on a generated project without a compiled language', commands='3 custom targets (@INPUT@, @OUTPUT@, @OUTPUT0@, a target output as an argument) and a generator (@INPUT@, two @OUTPUTn@ in one argument)',
-                          symbolic='build_by_default x2, build_always_stale, install, the index into a multi-output target'), labels=('done', 'generator'), max_paths=2000000, path_timeout=300))
+                          symbolic='build_by_default x2, build_always_stale, install, the index into a multi-output target'), labels=('done', 'generator'), max_paths=2000000, path_timeout=300, classify=__import__('harness.proj', fromlist=['classify']).classify))
     return out
